@@ -4,6 +4,9 @@ import (
 	"math/rand"
 	"sort"
 
+	sdk "github.com/pokt-network/pocket-core/types"
+	appsTypes "github.com/pokt-network/pocket-core/x/apps/types"
+
 	"verifharness/chainsim"
 	"verifharness/internal/hx"
 )
@@ -53,6 +56,33 @@ func (sc *scenario) fund(from, to int, amount int64) txn {
 func (sc *scenario) donate(from int, amount int64) txn {
 	e := sc.next()
 	return txn{sc.w.sendTx(from, poolAddr(sc.w), amount, e), sc.w.sendAbs(from, poolAddr(sc.w), amount, e)}
+}
+
+// noise: off-chain activity that must leave no trace - a request whose signature is junk (the rightful
+// application's public key, corrupted signature bytes) or that is correctly signed but never delivered goes
+// through CheckTx and the app/simulate query (which does not verify signatures).  Not recorded: the next
+// recorded step is judged from the last recorded post-state.
+func (sc *scenario) noise(kind string, app, other int) {
+	e := sc.next()
+	o := sc.w.opts(app, e)
+	o.CorruptSig = true
+	var bz []byte
+	switch kind {
+	case "unstake": // somebody unstakes `app` without its signature
+		bz = sc.w.s.SignTx(&appsTypes.MsgBeginUnstake{Address: sc.w.s.Addr(app)}, o)
+	case "transfer": // `app` is handed to `other`
+		bz = sc.w.s.SignTx(&appsTypes.MsgStake{PubKey: sc.w.s.Keys[other].PublicKey(), Value: sdk.ZeroInt()}, o)
+	case "stake": // `app` is staked / bumped with its whole balance
+		amt := sc.w.s.Project().Bal[sc.w.name(app)] - 10000
+		if amt < 1 {
+			amt = 1
+		}
+		bz = sc.w.s.SignTx(&appsTypes.MsgStake{PubKey: sc.w.s.Keys[app].PublicKey(), Chains: []string{"0001"}, Value: sdk.NewInt(amt)}, o)
+	case "signed-unstake": // correctly signed, only checked / simulated
+		bz = sc.w.unstakeTx(app, app, e)
+	}
+	sc.w.s.Noise(bz)
+	sc.rep.OpCounts["noise:"+kind]++
 }
 
 // block records one block with time advanced by dt.
@@ -125,6 +155,10 @@ func scripted(tw *hx.TraceWriter, rep *hx.Report, seed int64) int {
 		sc.block(1)
 		sc.block(1)
 		sc.block(1, sc.stake(k4, k4, c12, 2500000))
+		sc.noise("unstake", k4, k8) // off-chain forgeries against the staked a4: nothing may stick
+		sc.noise("transfer", k4, k8)
+		sc.noise("stake", k4, k8)
+		sc.noise("signed-unstake", k4, k8)
 		sc.block(1, sc.transfer(k8, k5))                              // signer is not an application
 		sc.block(1, sc.transfer(k4, k5))                              // a4 -> a5
 		sc.block(1, sc.transfer(k4, k6))                              // a4 is gone now
@@ -277,6 +311,11 @@ func randomTrace(tw *hx.TraceWriter, rep *hx.Report, idx int, blocks int) {
 	pick := func() int { return keys[rng.Intn(len(keys))] }
 	for b := 0; b < blocks; b++ {
 		dt := []int64{1, 1, 1, 1, 1, 2, 2, 3, 6}[rng.Intn(9)]
+		if rng.Intn(3) == 0 {
+			for i := 1 + rng.Intn(2); i > 0; i-- {
+				sc.noise([]string{"unstake", "transfer", "stake", "signed-unstake"}[rng.Intn(4)], pick(), pick())
+			}
+		}
 		var txs []txn
 		for i := rng.Intn(4); i > 0; i-- {
 			st := sc.w.s.Project()
